@@ -35,6 +35,11 @@ type tableCharSet struct {
 //
 // border is whether to have a border
 func MakeTable(data [][]gem.String, width int, lineSep gem.String, header bool, border bool, charSet gem.String) tb.Block {
+	if width < 0 {
+		// a negative width pads nothing, exactly like 0; clamping keeps `width - len` from wrapping around
+		width = 0
+	}
+
 	const minNonBorderInterColumnPadding = 2
 
 	// sanity check table input
